@@ -9,7 +9,7 @@ import (
 // c08Select: every obligation of the pkg/radius units; of the pkg/pppoe units (verified in full under
 // C16) only the clauses about Accounting-Start / Accounting-Stop records.
 func c08Select(o *govc.Oblig) bool {
-	if !strings.HasPrefix(o.Func, "pppoe.") {
+	if !strings.HasPrefix(o.Func, "pppoe.") && !strings.HasPrefix(o.Func, "dhcp.") {
 		return true
 	}
 	return strings.Contains(o.ID, "acctSt")
@@ -22,7 +22,7 @@ func init() {
 	register(&PropDef{
 		ID:    "C08",
 		Title: "Accounting records carry the session's identifiers and exact 64-bit counters (clause of C08)",
-		Pkgs:  []string{"./pkg/radius", "./pkg/pppoe"},
+		Pkgs:  []string{"./pkg/radius", "./pkg/pppoe", "./pkg/dhcp", "./pkg/ebpf", "./pkg/qos", "./pkg/nat"},
 		Funcs: []string{
 			"radius.Client.SendAccounting",
 			"radius.addMessageAuthenticator",
@@ -30,6 +30,8 @@ func init() {
 			"radius.formatMAC",
 			// PPPoE side of "every started session is accounted to exactly one Stop, never for a session that was not started"
 			"pppoe.SessionTeardown.cleanup", "pppoe.SessionTeardown.sendAccountingStop",
+			// DHCP side: a new acknowledged session is started exactly once, renewals and refusals start nothing (Stops: C16)
+			"dhcp.Server.handleRequest",
 			"pppoe.Server.handleIPCPConfigAck", "pppoe.Server.handlePADT", "pppoe.Server.handleLCPTermRequest", "pppoe.Server.endSession", "pppoe.Server.expireSessions",
 		},
 		Select: c08Select,
